@@ -145,6 +145,10 @@ def run_property(pid, tier, obligations, level="model_checking", extra_assumptio
         replays = pool.map(_replay_one, [(idx, results[idx]["violations"][vi].get("inputs")) for idx, vi in todo]) if todo else []
     known = load_known()
     new_viol, known_hits, unrepro = [], [], []
+    import shutil
+
+    if not os.environ.get("VERIF_KEEP_REPLAYS"):
+        shutil.rmtree(os.path.join(VERIF, "replays", pid), ignore_errors=True)
     os.makedirs(os.path.join(VERIF, "replays", pid), exist_ok=True)
     for (idx, vi), rp in zip(todo, replays):
         ob = obligations[idx]
